@@ -189,6 +189,17 @@ func glyfMain(args []string) error {
 					ext, _ := face.GlyphExtents(font.GID(g))
 					ev["ext"] = [4]int{int(ext.XBearing), int(ext.YBearing), int(ext.Width), int(ext.Height)}
 					contours := [][][]interface{}{}
+					// a first, throw-away query whose result is scribbled on: what the face returns afterwards must
+					// still be the font's outline (results are values owned by the caller)
+					if first, ok := face.GlyphData(font.GID(g)).(font.GlyphOutline); ok {
+						for i := range first.Segments {
+							for k := range first.Segments[i].Args {
+								first.Segments[i].Args[k].X += 977
+								first.Segments[i].Args[k].Y -= 311
+							}
+						}
+						first.Sideways(123)
+					}
 					if outline, ok := face.GlyphData(font.GID(g)).(font.GlyphOutline); ok {
 						var cur [2]int
 						for _, sg := range outline.Segments {
